@@ -170,9 +170,16 @@ func main() {
 		rng.Shuffle(len(lengths), func(i, j int) { lengths[i], lengths[j] = lengths[j], lengths[i] })
 		rep.Exhaustive(false)
 	} else {
-		lengths = quickLengths(rng, 500)
+		lengths = quickLengths(rng, 900)
 	}
-	runRoundTrips(lengths, seed, allClasses)
+	if rep.Thorough() {
+		// every length with the chunkings that matter per length; the full class
+		// list on the quick length set
+		runRoundTrips(lengths, seed, []string{"byte1", "splits", "rand", "rand-eoflast", "full"})
+		runRoundTrips(quickLengths(rng, 1500), seed^0x51, allClasses)
+	} else {
+		runRoundTrips(lengths, seed, allClasses)
+	}
 
 	// (b) over-long messages
 	phase("refusals")
@@ -183,20 +190,20 @@ func main() {
 	phase("malformed")
 	runSmallLengths(rng)
 	runPrefixes(rng)
-	runGarbageStreams(rng, rep.Pick(600, 20000))
+	runGarbageStreams(rng, rep.Pick(2000, 20000))
 	reportGarbageStats()
 
 	// (d) concurrency on one serialised stream
 	phase("concurrent_writers")
-	for i := 0; i < rep.Pick(6, 40); i++ {
-		runConcurrentWriters(cwCase{Kind: "concurrent-writers", Writers: []int{2, 8, 32, 64}[i%4], Per: rep.Pick(60, 150), Seed: rng.Uint64()})
+	for i := 0; i < rep.Pick(6, 32); i++ {
+		runConcurrentWriters(cwCase{Kind: "concurrent-writers", Writers: []int{2, 8, 32, 64}[i%4], Per: rep.Pick(60, 100), Seed: rng.Uint64()})
 	}
 	phase("transports")
 	trn := 0
 	for round := 0; round < rep.Pick(1, 6); round++ {
 		for _, tname := range []string{"tdc", "pipeline", "reuse"} {
 			for _, callers := range []int{1, 8, 64, 256} {
-				cfg := trCfg{Kind: "transport", Transport: tname, Callers: callers, PerCaller: rep.Pick(12, 30), QBig: []int{0, 5, 30}[rng.Intn(3)], Chunk: trn % 3, Procs: []int{16, 16, 4, 2}[rng.Intn(4)], Seed: rng.Uint64()}
+				cfg := trCfg{Kind: "transport", Transport: tname, Callers: callers, PerCaller: rep.Pick(16, 30), QBig: []int{0, 3, 15}[rng.Intn(3)], Chunk: trn % 3, Procs: []int{16, 16, 4, 2}[rng.Intn(4)], Seed: rng.Uint64()}
 				if callers == 1 {
 					cfg.PerCaller *= 8
 				}
@@ -211,7 +218,7 @@ func main() {
 
 	// (e) servers on loopback
 	phase("servers")
-	total := rep.Pick(5000, 200000)
+	total := rep.Pick(12000, 200000)
 	type plan struct {
 		proto              string
 		share              int // per mille of total
